@@ -66,6 +66,14 @@ def to_re(pattern, alphabet, mode="fullmatch"):
     anchored_r = bool(parsed) and parsed[-1] == (C.AT, C.AT_END)
     body = parsed[1 if anchored_l else 0: len(parsed) - (1 if anchored_r else 0)]
     everything = z3.Star(chars(alphabet))
+    icase = bool(pattern.flags & re.IGNORECASE)
+    wide = "".join(sorted(set(alphabet) | {c_.lower() for c_ in alphabet} | {c_.upper() for c_ in alphabet}))
+
+    def fold(pred):
+        """the characters of the alphabet accepted by a one-character test, case-insensitively when the pattern says so"""
+        if not icase:
+            return {ch for ch in alphabet if pred(ch)}
+        return {ch for ch in alphabet if pred(ch) or pred(ch.lower()) or pred(ch.upper())}
 
     def seq(items):
         parts = [one(it) for it in items]
@@ -76,12 +84,17 @@ def to_re(pattern, alphabet, mode="fullmatch"):
     def one(it):
         op, av = it
         if op == C.LITERAL:
+            if icase:
+                return chars(fold(lambda ch: ch == chr(av)))
             return z3.Re(chr(av)) if chr(av) in alphabet else z3.Empty(z3.ReSort(S))
         if op == C.NOT_LITERAL:
-            return chars(set(alphabet) - {chr(av)})
+            return chars(set(alphabet) - fold(lambda ch: ch == chr(av)))
         if op == C.ANY:
             return chars(alphabet)
         if op == C.IN:
+            if icase:
+                inset = _set(av, wide)
+                return chars(fold(lambda ch: ch in inset))
             return chars(_set(av, alphabet))
         if op == C.CATEGORY:
             return chars({ch for ch in alphabet if _cat(av, ch)})
